@@ -828,4 +828,126 @@ theorem C18_server_tag_only_witness :
          Ans.products [[Str.ofString "boost", Str.ofString "Linux64", Str.ofString "2.0"]]] := by
   decide
 
+/-! ## the server side: files handed out by `DistribServer.getFile` / `cacheFile` -/
+
+theorem mem_assocSet {β : Type} (l : List (Str × β)) (k : Str) (v : β) (x : Str × β) (h : x ∈ assocSet l k v) :
+    x = (k, v) ∨ x ∈ l := by
+  induction l with
+  | nil => simp [assocSet] at h; exact Or.inl h
+  | cons q r ih =>
+    obtain ⟨k', v'⟩ := q
+    by_cases hk : k' = k
+    · simp only [assocSet, hk, if_true, List.mem_cons] at h
+      rcases h with h | h
+      · exact Or.inl h
+      · exact Or.inr (by simp [h])
+    · simp only [assocSet, hk, if_false, List.mem_cons] at h
+      rcases h with h | h
+      · exact Or.inr (by simp [h])
+      · rcases ih h with h1 | h1
+        · exact Or.inl h1
+        · exact Or.inr (by simp [h1])
+
+theorem assocGet_none_not_mem {β : Type} (l : List (Str × β)) (k : Str) (h : assocGet l k = none) :
+    ∀ x ∈ l, x.1 ≠ k := by
+  induction l with
+  | nil => intro x hx; cases hx
+  | cons q r ih =>
+    obtain ⟨k', v'⟩ := q
+    by_cases hk : k' = k
+    · simp [assocGet, hk] at h
+    · simp only [assocGet, hk, if_false] at h
+      intro x hx
+      rcases List.mem_cons.mp hx with rfl | hx
+      · exact hk
+      · exact ih h x hx
+
+/-- what a fresh server object answers for a path -/
+def freshFile (server : List (Str × Str)) (path : Str) : FileAns :=
+  match assocGet server path with
+  | some c => .content c
+  | none => .notFound
+
+/-- the cache is sound: every source it knows is held, with the server's content, by the local file it names -/
+def CacheSound (server : List (Str × Str)) (s : FileSrv) : Prop :=
+  ∀ x ∈ s.cache, ∃ c, assocGet server x.1 = some c ∧ assocGet s.files x.2 = some c
+
+theorem getFile_sound (server : List (Str × Str)) (s : FileSrv) (path dest : Str) (h : CacheSound server s) :
+    (getFile false server s path dest).1 = freshFile server path ∧
+      CacheSound server (getFile false server s path dest).2 := by
+  have h1 : CacheSound server { s with cache := s.cache.filter fun p => !(p.2 == dest && p.1 != path) } := by
+    intro x hx
+    exact h x (List.mem_filter.mp hx).1
+  have hfil : ∀ x ∈ s.cache.filter (fun p => !(p.2 == dest && p.1 != path)), x.2 = dest → x.1 = path := by
+    intro x hx hd
+    have := (List.mem_filter.mp hx).2
+    simp only [hd, beq_self_eq_true, Bool.true_and, Bool.not_eq_true', bne_eq_false_iff_eq] at this
+    exact this
+  unfold getFile
+  simp only [Bool.false_eq_true, if_false]
+  cases hc : assocGet (s.cache.filter fun p => !(p.2 == dest && p.1 != path)) path with
+  | some f =>
+    have hmem := assocGet_mem _ path f hc
+    obtain ⟨c, hs, hf⟩ := h1 (path, f) hmem
+    by_cases hfd : f = dest
+    · subst hfd
+      simp only [beq_self_eq_true, if_true, Bool.false_eq_true, if_false]
+      exact ⟨by simp [hf, freshFile, hs], h1⟩
+    · have : (f == dest) = false := by simpa using hfd
+      simp only [this, Bool.false_eq_true, if_false]
+      refine ⟨by simp [hf, freshFile, hs], ?_⟩
+      intro x hx
+      obtain ⟨c', hs', hf'⟩ := h1 x hx
+      by_cases hxd : x.2 = dest
+      · have hxp := hfil x hx hxd
+        refine ⟨c, by rw [hxp]; exact hs, ?_⟩
+        simp [hxd, hf, assocGet_assocSet_same]
+      · exact ⟨c', hs', by simp only []; rw [assocGet_assocSet_other _ _ _ _ hxd]; exact hf'⟩
+  | none =>
+    simp only
+    cases hsrv : assocGet server path with
+    | none => exact ⟨by simp [freshFile, hsrv], h1⟩
+    | some c =>
+      refine ⟨by simp [freshFile, hsrv], ?_⟩
+      intro x hx
+      rcases mem_assocSet _ _ _ _ hx with rfl | hx'
+      · exact ⟨c, hsrv, by simp [assocGet_assocSet_same]⟩
+      · obtain ⟨c', hs', hf'⟩ := h1 x hx'
+        have hxp : x.1 ≠ path := assocGet_none_not_mem _ path hc x hx'
+        have hxd : x.2 ≠ dest := fun hd => hxp (hfil x hx' hd)
+        exact ⟨c', hs', by simp only []; rw [assocGet_assocSet_other _ _ _ _ hxd]; exact hf'⟩
+
+/-- **The file a server object hands out for a path holds what the server holds under that path — whatever was
+requested before and wherever the copies were put** (repaired `cacheFile`, D60): every answer of a history of
+`getFile(path, filename=dest)` requests, with destinations reused at will, is the answer of a fresh server object. -/
+theorem C18_server_file_history_independent (server : List (Str × Str)) (reqs : List (Str × Str)) :
+    getFiles false server {} reqs = reqs.map fun r => freshFile server r.1 := by
+  have key : ∀ (reqs : List (Str × Str)) (s : FileSrv), CacheSound server s →
+      getFiles false server s reqs = reqs.map fun r => freshFile server r.1 := by
+    intro reqs
+    induction reqs with
+    | nil => intro s _; rfl
+    | cons r rest ih =>
+      intro s hs
+      obtain ⟨p, d⟩ := r
+      have := getFile_sound server s p d hs
+      simp only [getFiles, List.map_cons, this.1, ih _ this.2]
+  exact key reqs {} (by intro x hx; cases hx)
+
+/-- **D60, pinned tree (negation witness):** `afw.table` fetched into a scratch file, `boost.table` fetched into the
+same scratch file, `afw.table` asked for again: the pinned cache hands out `boost.table`'s text; the same file asked
+for twice into one destination raises `SameFileError`. -/
+theorem C18_server_file_pinned_witness :
+    let server := [(Str.ofString "tables/afw.table", Str.ofString "A"), (Str.ofString "tables/boost.table", Str.ofString "B")]
+    let a := Str.ofString "tables/afw.table"
+    let b := Str.ofString "tables/boost.table"
+    getFiles true server {} [(a, Str.ofString "scratch"), (b, Str.ofString "scratch"), (a, Str.ofString "other")] =
+        [.content (Str.ofString "A"), .content (Str.ofString "B"), .content (Str.ofString "B")] ∧
+      getFiles true server {} [(a, Str.ofString "scratch"), (a, Str.ofString "scratch")] =
+        [.content (Str.ofString "A"), .sameFile] ∧
+      getFiles false server {} [(a, Str.ofString "scratch"), (b, Str.ofString "scratch"), (a, Str.ofString "other"),
+                                (a, Str.ofString "other")] =
+        [.content (Str.ofString "A"), .content (Str.ofString "B"), .content (Str.ofString "A"), .content (Str.ofString "A")] := by
+  decide
+
 end EupsModel.C18
